@@ -19,7 +19,7 @@ enum { T_BC, T_TAB, T_SBC };
 static const char *tname[] = {"2dbc", "tabular", "sbc"};
 typedef struct { int type, P, Q, kp, kq, ip, jq, mb, nb, lm, ln, r, uplo; unsigned seed; } dist_t;
 typedef struct {
-    int dtd; dist_t Y, T; int size_row, size_col, disi_Y, disj_Y, disi_T, disj_T; int fast;
+    int dtd; dist_t Y, T; int size_row, size_col, disi_Y, disj_Y, disi_T, disj_T; int fast, near_fast;
     char desc[420];
 } case_t;
 typedef struct {
@@ -31,7 +31,7 @@ static int rank, nranks, nthreads;
 static parsec_context_t *parsec;
 static const case_t *cur;
 static long tot_cases, tot_nontrivial, tot_fast, tot_general, tot_dtd, tot_window_elems, tot_checked_elems, tot_src_elems, tot_unaligned, tot_difftile, tot_multi_owner;
-static long tot_type[3];
+static long tot_type[3], tot_near_fast[7];
 #define DSET (1u << 16)
 static uint64_t dhash[DSET]; static long dn;
 static void dset_add(uint64_t h) { if (!h) h = 1; size_t k = h & (DSET - 1); for (unsigned t = 0; t < DSET; t++, k = (k + 1) & (DSET - 1)) { if (dhash[k] == h) return; if (!dhash[k]) { dhash[k] = h; dn++; return; } } }
@@ -66,11 +66,22 @@ static int padded(int l, int b) { return ((l + b - 1) / b) * b; }
 static int gen_case(case_t *c, uint64_t seed, long idx, int dtd_permille) {
     vf_rng_t r; vf_rng_seed(&r, seed * 104729 + 5, (uint64_t)idx);
     memset(c, 0, sizeof *c);
-    c->dtd = dtd_permille >= 1000 ? 1 : (dtd_permille <= 0 ? 0 : (idx % (1000 / dtd_permille) == (1000 / dtd_permille) - 1));   /* deterministic share */
+    c->dtd = dtd_permille >= 1000 ? 1 : (dtd_permille <= 0 ? 0 : (idx % 3 == 2 && (idx / 3) % 2 == 0));   /* deterministic share (one case in six), never a fast-path boundary case */
     (void)vf_rand(&r);
     gen_dist(&r, &c->Y, 1); gen_dist(&r, &c->T, 1);
     int mode = vf_randn(&r, 100);            /* <40: same tiles + aligned displacements (fast path); <55: same tiles, unaligned; else anything */
     if (mode < 55) { c->T.mb = c->Y.mb; c->T.nb = c->Y.nb; if (c->T.type == T_SBC || c->Y.type == T_SBC) { c->T.nb = c->T.mb = c->Y.nb = c->Y.mb; } }
+    if (c->dtd) {
+        /* the DTD implementation inserts and flushes per tile: keep its cases to at most ~120 tiles per side so that one
+         * case stays a matter of seconds under the sanitizer (equal tile sizes are kept equal) */
+        int same = (c->Y.mb == c->T.mb && c->Y.nb == c->T.nb);
+        for (int g = 0; g < 64; g++) {
+            long ty = (long)((c->Y.lm + c->Y.mb - 1) / c->Y.mb) * ((c->Y.ln + c->Y.nb - 1) / c->Y.nb), tt = (long)((c->T.lm + c->T.mb - 1) / c->T.mb) * ((c->T.ln + c->T.nb - 1) / c->T.nb);
+            if (ty <= 120 && tt <= 120) break;
+            if (same || ty > 120) { c->Y.mb++; c->Y.nb++; }
+            if (same || tt > 120) { c->T.mb++; c->T.nb++; }
+        }
+    }
     /* window inside both matrices */
     int maxr = c->Y.lm < c->T.lm ? c->Y.lm : c->T.lm, maxc = c->Y.ln < c->T.ln ? c->Y.ln : c->T.ln;
     c->size_row = 1 + vf_randn(&r, maxr); c->size_col = 1 + vf_randn(&r, maxc);
@@ -103,10 +114,34 @@ static int gen_case(case_t *c, uint64_t seed, long idx, int dtd_permille) {
         dist_t *d = w ? &c->T : &c->Y; int di = w ? c->disi_T : c->disi_Y, dj = w ? c->disj_T : c->disj_Y;
         if (d->type == T_SBC && !(di / d->mb >= (dj + c->size_col - 1) / d->nb)) d->type = T_BC;
     }
+    /* boundary of the path selection: every third case starts from a fast-path configuration (equal tiles, all four
+     * displacements on tile boundaries) and breaks exactly ONE of the six conditions of the selection, in rotation */
+    if (idx % 3 == 1) {
+        if (c->Y.type == T_SBC) c->Y.type = T_BC; if (c->T.type == T_SBC) c->T.type = T_BC;
+        int which = (int)((idx / 3 + nranks + nthreads) % 6);
+        int mb = 2 + vf_randn(&r, 5), nb = 2 + vf_randn(&r, 5);
+        c->Y.mb = c->T.mb = mb; c->Y.nb = c->T.nb = nb;
+        if (c->Y.lm < 3 * mb + 2) c->Y.lm = 3 * mb + 2 + vf_randn(&r, 20); if (c->T.lm < 3 * mb + 2) c->T.lm = 3 * mb + 2 + vf_randn(&r, 20);
+        if (c->Y.ln < 3 * nb + 2) c->Y.ln = 3 * nb + 2 + vf_randn(&r, 20); if (c->T.ln < 3 * nb + 2) c->T.ln = 3 * nb + 2 + vf_randn(&r, 20);
+        int mr = (c->Y.lm < c->T.lm ? c->Y.lm : c->T.lm) - (2 * mb + 1), mc = (c->Y.ln < c->T.ln ? c->Y.ln : c->T.ln) - (2 * nb + 1);
+        c->size_row = 1 + vf_randn(&r, mr); c->size_col = 1 + vf_randn(&r, mc);
+        /* aligned displacements that leave one tile of slack */
+        c->disi_Y = mb * vf_randn(&r, (c->Y.lm - c->size_row - mb) / mb + 1); c->disj_Y = nb * vf_randn(&r, (c->Y.ln - c->size_col - nb) / nb + 1);
+        c->disi_T = mb * vf_randn(&r, (c->T.lm - c->size_row - mb) / mb + 1); c->disj_T = nb * vf_randn(&r, (c->T.ln - c->size_col - nb) / nb + 1);
+        switch (which) {
+        case 0: c->disi_Y += 1 + vf_randn(&r, mb - 1); break;
+        case 1: c->disj_Y += 1 + vf_randn(&r, nb - 1); break;
+        case 2: c->disi_T += 1 + vf_randn(&r, mb - 1); break;
+        case 3: c->disj_T += 1 + vf_randn(&r, nb - 1); break;
+        case 4: c->T.mb = mb + 1; break;
+        default: c->T.nb = nb + 1; break;
+        }
+        c->near_fast = 1 + which;
+    }
     c->fast = (c->Y.mb == c->T.mb) && (c->Y.nb == c->T.nb) && (c->disi_Y % c->Y.mb == 0) && (c->disj_Y % c->Y.nb == 0) && (c->disi_T % c->T.mb == 0) && (c->disj_T % c->T.nb == 0);
     snprintf(c->desc, sizeof c->desc,
-             "impl=%s path=%s window=%dx%d Y[%s %dx%d tile %dx%d grid %dx%d k %dx%d off %d,%d seed %u] at (%d,%d) -> T[%s %dx%d tile %dx%d grid %dx%d k %dx%d off %d,%d seed %u] at (%d,%d) ranks=%d threads=%d idx=%ld",
-             c->dtd ? "dtd" : "ptg", c->fast ? "reshuffle" : "general", c->size_row, c->size_col,
+             "impl=%s path=%s%s window=%dx%d Y[%s %dx%d tile %dx%d grid %dx%d k %dx%d off %d,%d seed %u] at (%d,%d) -> T[%s %dx%d tile %dx%d grid %dx%d k %dx%d off %d,%d seed %u] at (%d,%d) ranks=%d threads=%d idx=%ld",
+             c->dtd ? "dtd" : "ptg", c->fast ? "reshuffle" : "general", c->near_fast ? "(one fast-path condition broken)" : "", c->size_row, c->size_col,
              tname[c->Y.type], c->Y.lm, c->Y.ln, c->Y.mb, c->Y.nb, c->Y.P, c->Y.Q, c->Y.kp, c->Y.kq, c->Y.ip, c->Y.jq, c->Y.seed, c->disi_Y, c->disj_Y,
              tname[c->T.type], c->T.lm, c->T.ln, c->T.mb, c->T.nb, c->T.P, c->T.Q, c->T.kp, c->T.kq, c->T.ip, c->T.jq, c->T.seed, c->disi_T, c->disj_T, nranks, nthreads, idx);
     return 1;
@@ -208,7 +243,7 @@ static void run_case(const case_t *c, int sample)
     if (c->Y.mb != c->T.mb || c->Y.nb != c->T.nb) tot_difftile++;
     if (c->disi_Y % c->Y.mb || c->disj_Y % c->Y.nb || c->disi_T % c->T.mb || c->disj_T % c->T.nb) tot_unaligned++;
     if (ownY >= 2 && ownT >= 2) tot_multi_owner++;
-    tot_type[c->Y.type]++; tot_type[c->T.type]++;
+    tot_type[c->Y.type]++; tot_type[c->T.type]++; if (!c->dtd) tot_near_fast[c->near_fast]++;
     int stiles = ((c->disi_Y + c->size_row - 1) / c->Y.mb - c->disi_Y / c->Y.mb + 1) * ((c->disj_Y + c->size_col - 1) / c->Y.nb - c->disj_Y / c->Y.nb + 1);
     int ttiles = ((c->disi_T + c->size_row - 1) / c->T.mb - c->disi_T / c->T.mb + 1) * ((c->disj_T + c->size_col - 1) / c->T.nb - c->disj_T / c->T.nb + 1);
     if (wexp >= 4 && (stiles >= 2 || ttiles >= 2)) { tot_nontrivial++; uint64_t h = 91; for (const char *s = c->desc; *s && strncmp(s, " idx=", 5); s++) h = vf_mix(h, (uint64_t)*s); dset_add(h); }
@@ -226,7 +261,11 @@ void __assert_fail(const char *assertion, const char *file, unsigned int line, c
 
 int main(int argc, char **argv)
 {
-    vf_heartbeat_start();
+    /* heartbeat from rank 0 only (known before MPI_Init from the launcher's environment): the driver compares the last
+     * heartbeat lines textually, and lines of several ranks interleave in changing order.  Every case ends in a
+     * collective, so a rank that hangs stops rank 0 at the end of the same case. */
+    const char *envrank = getenv("OMPI_COMM_WORLD_RANK"); int hb_on = !envrank || atoi(envrank) == 0;
+    if (hb_on) vf_heartbeat_start();
     int prov; MPI_Init_thread(&argc, &argv, MPI_THREAD_SERIALIZED, &prov);
     VF_TICK();
     MPI_Comm_rank(MPI_COMM_WORLD, &rank); MPI_Comm_size(MPI_COMM_WORLD, &nranks);
@@ -246,13 +285,13 @@ int main(int argc, char **argv)
         run_case(&c, k < start + 2);
     }
     cur = NULL;
-    vf_heartbeat_stop();
+    if (hb_on) vf_heartbeat_stop();
     long l = vf_nviolations, g = 0; MPI_Allreduce(&l, &g, 1, MPI_LONG, MPI_SUM, MPI_COMM_WORLD);
     if (rank == 0)
         vf_out("{\"type\":\"summary\",\"cases\":%ld,\"nontrivial\":%ld,\"distinct_nontrivial\":%ld,\"ptg_reshuffle\":%ld,\"ptg_general\":%ld,\"dtd\":%ld,\"window_elements\":%ld,\"target_elements_checked\":%ld,"
-               "\"different_tile_sizes\":%ld,\"unaligned_displacement\":%ld,\"multi_owner_both_sides\":%ld,\"side_2dbc\":%ld,\"side_tabular\":%ld,\"side_sbc\":%ld,\"ranks\":%d,\"threads\":%d,\"violations\":%ld}",
+               "\"different_tile_sizes\":%ld,\"unaligned_displacement\":%ld,\"multi_owner_both_sides\":%ld,\"side_2dbc\":%ld,\"side_tabular\":%ld,\"side_sbc\":%ld,\"ptg_fast_path_boundary\":{\"disi_Y\":%ld,\"disj_Y\":%ld,\"disi_T\":%ld,\"disj_T\":%ld,\"mb\":%ld,\"nb\":%ld},\"ranks\":%d,\"threads\":%d,\"violations\":%ld}",
                tot_cases, tot_nontrivial, dn, tot_fast, tot_general, tot_dtd, tot_window_elems, tot_checked_elems, tot_difftile, tot_unaligned, tot_multi_owner,
-               tot_type[0], tot_type[1], tot_type[2], nranks, nthreads, g);
+               tot_type[0], tot_type[1], tot_type[2], tot_near_fast[1], tot_near_fast[2], tot_near_fast[3], tot_near_fast[4], tot_near_fast[5], tot_near_fast[6], nranks, nthreads, g);
     parsec_fini(&parsec);
     MPI_Finalize();
     return g ? 1 : 0;
